@@ -5,7 +5,7 @@
    check_subst: the care-set substitution theorem - with the frame conditions, every gate
    that survives the step keeps its value under every assignment whose leaf vector is in
    the compared set. *)
-Require Import Cirbo.Model.Base Cirbo.Model.Gate Cirbo.Model.Den Cirbo.Model.Circuit
+Require Import Cirbo.Model.Base Cirbo.Model.Gate Cirbo.Model.Den Cirbo.Model.Circuit Cirbo.Model.Traverse
         Cirbo.Model.Eval Cirbo.Model.Sem Cirbo.Model.ConeSem Cirbo.Model.PatternSim
         Cirbo.Model.SubcircuitValidator.
 Require Import Cirbo.Generated.GateTypes.
@@ -105,100 +105,151 @@ Proof.
   - exfalso. apply Hn. split; [eapply dget_In_keys; exact Hg|reflexivity].
 Qed.
 
+(* ---- induction along a checked operands-first order ---- *)
+Definition closed_in (c : circuit) (s : list label) : Prop :=
+  forall x g, In x s -> dget (gates c) x = Some g -> forall op, In op (gops g) -> In op s.
+
+Lemma ordered_induction (c : circuit) (P : label -> Prop) :
+  (forall l g s, dget (gates c) l = Some g -> (forall op, In op (gops g) -> In op s) ->
+                 closed_in c s -> (forall x, In x s -> P x) -> P l) ->
+  forall order seen, ordered_okb c seen order = true ->
+    closed_in c seen -> (forall x, In x seen -> P x) ->
+    forall x, In x order -> P x.
+Proof.
+  intros Hstep. induction order as [|l rest IH]; intros seen Hok Hcl Hp x Hx; [destruct Hx|].
+  simpl in Hok. apply andb_true_iff in Hok. destruct Hok as [Hok Hrest].
+  apply andb_true_iff in Hok. destruct Hok as [_ Hg].
+  destruct (dget (gates c) l) as [g|] eqn:Eg; [|discriminate].
+  rewrite forallb_forall in Hg.
+  assert (forall op, In op (gops g) -> In op seen) as Hops
+      by (intros op Hop; apply memb_In; apply Hg; exact Hop).
+  assert (P l) as Hl by (eapply Hstep; eassumption).
+  destruct Hx as [<-|Hx]; [exact Hl|].
+  apply (IH (l :: seen) Hrest); [| |exact Hx].
+  - intros y gy [<-|Hy] Hgy op Hop.
+    + rewrite Eg in Hgy; injection Hgy as <-. right; apply Hops; exact Hop.
+    + right. eapply Hcl; eassumption.
+  - intros y [<-|Hy]; [exact Hl|apply Hp; exact Hy].
+Qed.
+
+Lemma frame_order_parts new :
+  frame_order new = true ->
+  exists order, ordered_okb new [] order = true /\
+                forall k, In k (dkeys (gates new)) -> In k order.
+Proof.
+  unfold frame_order. destruct (top_sort true new) as [order|]; [|discriminate].
+  intros H. apply andb_true_iff in H. destruct H as [H1 H2]. exists order. split; [exact H1|].
+  intros k Hk. rewrite forallb_forall in H2. apply memb_In. apply H2; exact Hk.
+Qed.
+
 Section Subst.
   Variables (old new : circuit) (leaves outs : list label) (care : option (list (list bool))).
   Hypothesis Hcheck : check_subst old new leaves outs care = true.
 
   Let r := changed old new.
   Let rint := replaced_internal old new outs.
-  Let s := closure (closure_fuel old leaves) old leaves [].
 
   Lemma subst_parts :
-    (forall l, In l leaves -> In l s) /\
-    (forall l g, In l s -> dget (gates old) l = Some g -> forall o, In o (gops g) -> In o s) /\
-    (forall l, In l s -> ~ In l r) /\
-    (forall l g, dget (gates old) l = Some g -> ~ In l r -> forall o, In o (gops g) -> ~ In o rint) /\
+    frame_order new = true /\
+    (forall l, In l leaves -> ~ In l rint /\ ~ In l outs) /\
+    (forall l g, dget (gates old) l = Some g -> ~ In l r -> ~ In l outs ->
+                 forall o, In o (gops g) -> ~ In o rint) /\
     check_step old new leaves outs care = true.
   Proof.
     unfold check_subst, check_frame in Hcheck.
     apply andb_true_iff in Hcheck. destruct Hcheck as [Hf Hs].
     apply andb_true_iff in Hf. destruct Hf as [Hf _].
-    apply andb_true_iff in Hf. destruct Hf as [Hf H].
-    unfold frame_below in Hf. unfold frame_users in H. fold r rint s in Hf, H.
-    apply andb_true_iff in Hf. destruct Hf as [Hf H0].
-    apply andb_true_iff in Hf. destruct Hf as [Hf H1].
-    unfold closedb in H1. rewrite forallb_forall in Hf, H, H0, H1.
-    repeat split.
-    - intros l Hl. apply memb_In. apply Hf; exact Hl.
-    - intros l g Hl Hg o Ho. specialize (H1 l Hl). rewrite Hg in H1.
-      rewrite forallb_forall in H1. apply memb_In. apply H1; exact Ho.
-    - intros l Hl. specialize (H0 l Hl). apply negb_true_iff in H0. apply memb_nIn; exact H0.
-    - intros l g Hg Hl o Ho. specialize (H (l, g) (dget_In _ _ _ Hg)). simpl in H.
-      apply orb_true_iff in H. destruct H as [H|H]; [apply memb_In in H; contradiction|].
-      rewrite forallb_forall in H. specialize (H o Ho). apply negb_true_iff in H.
-      apply memb_nIn; exact H.
-    - exact Hs.
+    apply andb_true_iff in Hf. destruct Hf as [Hf Hu].
+    apply andb_true_iff in Hf. destruct Hf as [Ho Hl].
+    unfold frame_leaves in Hl. unfold frame_users in Hu. fold r rint in Hl, Hu.
+    rewrite forallb_forall in Hl, Hu.
+    repeat split; try assumption.
+    - specialize (Hl l H). apply andb_true_iff in Hl. destruct Hl as [Hl _].
+      apply negb_true_iff in Hl. apply memb_nIn; exact Hl.
+    - specialize (Hl l H). apply andb_true_iff in Hl. destruct Hl as [_ Hl].
+      apply negb_true_iff in Hl. apply memb_nIn; exact Hl.
+    - intros l g Hg Hl' Hlo o Ho'. specialize (Hu (l, g) (dget_In _ _ _ Hg)). cbn [fst snd] in Hu.
+      apply orb_true_iff in Hu. destruct Hu as [Hu|Hu].
+      + apply orb_true_iff in Hu. destruct Hu as [Hu|Hu]; apply memb_In in Hu; contradiction.
+      + rewrite forallb_forall in Hu. specialize (Hu o Ho'). apply negb_true_iff in Hu.
+        apply memb_nIn; exact Hu.
   Qed.
 
   Variable a : assignment.
-
-  (* gates below the leaves are untouched: they keep their values *)
-  Lemma below_leaves_stable l v : In l s -> Eval old a l v -> Eval new a l v.
-  Proof.
-    destruct subst_parts as (_ & Hclosed & Hsr & _).
-    intros Hl H; revert Hl.
-    induction H as [l g Hg Ht|l g vs v Hg Ht Hops IH Hop] using Eval_ind2; intros Hl.
-    - apply EvalInput with (g := g); [|exact Ht]. eapply unchanged_gate; [exact Hg|apply Hsr; exact Hl].
-    - eapply EvalGate with (g := g); [eapply unchanged_gate; [exact Hg|apply Hsr; exact Hl]|exact Ht| |exact Hop].
-      pose proof (Hclosed l g Hl Hg) as Hin. clear -IH Hin.
-      induction IH as [|o w os ws Hw _ IH']; constructor.
-      + apply Hw. apply Hin; left; reflexivity.
-      + apply IH'. intros o' Ho'. apply Hin; right; exact Ho'.
-  Qed.
-
   (* the leaves carry a compared vector under a (with care = None: any Boolean vector) *)
   Hypothesis Hvec : exists v, compared (length leaves) care v /\
                               Forall2 (fun l b => Eval old a l (inj b)) leaves v.
 
-  Lemma outs_stable o v : In o outs -> Eval old a o v -> Eval new a o v.
+  Definition keeps (l : label) : Prop :=
+    ~ In l rint -> forall v, Eval old a l v -> Eval new a l v.
+
+  Lemma not_r l : ~ In l rint -> memb l outs = false -> ~ In l r.
   Proof.
-    destruct subst_parts as (Hls & _ & _ & _ & Hstep).
-    destruct Hvec as (w & Hw & Hold).
-    intros Ho H.
-    destruct (check_step_sound _ _ _ _ _ Hstep w Hw o Ho) as (b & H1 & H2).
-    assert (forall ls ws, (forall l, In l ls -> In l s) ->
-              Forall2 (fun l b => Eval old a l (inj b)) ls ws ->
-              Forall2 (fun l b => Eval new a l (inj b)) ls ws) as Hgen.
-    { intros ls ws Hin HF. induction HF as [|l0 b0 ls bs Hlb _ IH]; constructor.
-      - apply below_leaves_stable; [apply Hin; left; reflexivity|exact Hlb].
-      - apply IH. intros l' Hl'. apply Hin; right; exact Hl'. }
-    pose proof (Hgen leaves w Hls Hold) as Hnew.
-    pose proof (ConeEval_Eval _ _ _ _ _ _ Hold H1) as E1.
-    rewrite (Eval_functional _ _ _ _ _ H E1).
-    eapply ConeEval_Eval; eassumption.
+    intros Hl Eo Hr. apply Hl. unfold rint, replaced_internal. apply filter_In.
+    split; [exact Hr|rewrite Eo; reflexivity].
+  Qed.
+
+  Lemma subst_step l g s :
+    dget (gates new) l = Some g -> (forall op, In op (gops g) -> In op s) ->
+    closed_in new s -> (forall x, In x s -> keeps x) -> keeps l.
+  Proof.
+    destruct subst_parts as (_ & Hleaves & Husers & Hstep).
+    intros Hg Hops Hcl Hp Hl v Hev.
+    destruct (memb l outs) eqn:Eo.
+    - destruct Hvec as (w & Hw & Hold).
+      destruct (check_step_sound _ _ _ _ _ Hstep w Hw l (proj1 (memb_In _ _) Eo)) as (b & H1 & H2).
+      pose proof (ConeEval_Eval _ _ _ _ _ _ Hold H1) as E1.
+      rewrite (Eval_functional _ _ _ _ _ Hev E1).
+      assert (forall x b', ConeEval new (combine leaves w) x b' ->
+                           In x s \/ x = l -> Eval new a x (inj b')) as Hcone.
+      { intros x b' Hc.
+        induction Hc as [x b' Hb|x g' bs b' Hb Hg' Hcs IH Hd] using ConeEval_ind2; intros Hx.
+        - apply dget_In in Hb.
+          pose proof (Forall2_combine_In _ _ _ _ _ Hold Hb) as Hxo.
+          apply in_combine_l in Hb. destruct (Hleaves x Hb) as [Hxr Hxo'].
+          destruct Hx as [Hx| ->]; [apply (Hp x Hx Hxr); exact Hxo|].
+          exfalso. apply Hxo'. apply memb_In; exact Eo.
+        - assert (forall op, In op (gops g') -> In op s) as Hin.
+          { destruct Hx as [Hx| ->]; [intros op Hop; eapply Hcl; eassumption|].
+            rewrite Hg in Hg'; injection Hg' as <-. exact Hops. }
+          eapply EvalGate with (vs := map inj bs); [exact Hg'| | |].
+          + intros Ht. rewrite Ht in Hd. discriminate.
+          + clear -IH Hin. induction IH as [|y z ys zs Hyz _ IH']; simpl; constructor.
+            * apply Hyz. left. apply Hin; left; reflexivity.
+            * apply IH'. intros op Hop. apply Hin; right; exact Hop.
+          + rewrite operator_of_den, Hd. reflexivity. }
+      apply (Hcone l b H2). right; reflexivity.
+    - pose proof (not_r l Hl Eo) as Hr.
+      assert (~ In l outs) as Hlo by (apply memb_nIn; exact Eo).
+      inversion Hev as [? g0 Hg0 Ht|? g0 vs ? Hg0 Ht Hvs Hop]; subst.
+      + apply EvalInput with (g := g0); [eapply unchanged_gate; eassumption|exact Ht].
+      + pose proof (unchanged_gate _ _ _ _ Hg0 Hr) as Hg0'.
+        rewrite Hg in Hg0'; injection Hg0' as ->.
+        eapply EvalGate with (g := g0); [exact Hg|exact Ht| |exact Hop].
+        pose proof (Husers l g0 Hg0 Hr Hlo) as Hu.
+        clear -Hvs Hu Hops Hp. induction Hvs as [|y z ys zs Hyz _ IH']; constructor.
+        * apply (Hp y); [apply Hops; left; reflexivity|apply Hu; left; reflexivity|exact Hyz].
+        * apply IH'; intros op Hop; [apply Hops|apply Hu]; right; exact Hop.
   Qed.
 
   Theorem surviving_gates_stable l v : ~ In l rint -> Eval old a l v -> Eval new a l v.
   Proof.
-    destruct subst_parts as (_ & _ & _ & Hframe & _).
-    intros Hl H; revert Hl.
-    induction H as [l g Hg Ht|l g vs v Hg Ht Hops IH Hop] using Eval_ind2; intros Hl.
-    - destruct (memb l outs) eqn:Eo.
-      + apply outs_stable; [apply memb_In; exact Eo|]. eapply EvalInput; eassumption.
-      + assert (~ In l r) as Hr.
-        { intros Hr. apply Hl. unfold rint, replaced_internal. apply filter_In.
-          split; [exact Hr|rewrite Eo; reflexivity]. }
-        apply EvalInput with (g := g); [|exact Ht]. eapply unchanged_gate; eassumption.
-    - destruct (memb l outs) eqn:Eo.
-      + apply outs_stable; [apply memb_In; exact Eo|]. eapply EvalGate; eassumption.
-      + assert (~ In l r) as Hr.
-        { intros Hr. apply Hl. unfold rint, replaced_internal. apply filter_In.
-          split; [exact Hr|rewrite Eo; reflexivity]. }
-        eapply EvalGate with (g := g); [eapply unchanged_gate; eassumption|exact Ht| |exact Hop].
-        pose proof (Hframe l g Hg Hr) as Hin. clear -IH Hin.
-        induction IH as [|o w os ws Hw _ IH']; constructor.
-        * apply Hw. apply Hin; left; reflexivity.
-        * apply IH'. intros o' Ho'. apply Hin; right; exact Ho'.
+    destruct subst_parts as (Horder & Hleaves & _ & Hstep).
+    destruct (frame_order_parts _ Horder) as (order & Hok & Hall).
+    intros Hl Hev.
+    assert (exists g, dget (gates new) l = Some g) as (g & Hg).
+    { destruct (memb l outs) eqn:Eo.
+      - destruct Hvec as (w & Hw & _).
+        destruct (check_step_sound _ _ _ _ _ Hstep w Hw l (proj1 (memb_In _ _) Eo)) as (b & _ & H2).
+        inversion H2 as [? ? Hb|? g ? ? _ Hg _ _]; subst; [|exists g; exact Hg].
+        exfalso. apply dget_In, in_combine_l in Hb. destruct (Hleaves l Hb) as [_ Hn].
+        apply Hn. apply memb_In; exact Eo.
+      - pose proof (not_r l Hl Eo) as Hr.
+        inversion Hev as [? g0 Hg0 _|? g0 ? ? Hg0 _ _ _]; subst; exists g0; eapply unchanged_gate; eassumption. }
+    assert (In l order) as Hin by (apply Hall; eapply dget_In_keys; exact Hg).
+    apply (ordered_induction new keeps subst_step order [] Hok); try assumption.
+    - intros x gx [].
+    - intros x [].
   Qed.
 End Subst.
 
